@@ -382,6 +382,7 @@ func (w *world) build(role string, nf int, kind string) *packet {
 // ---------------------------------------------------------------- receivers
 type result struct {
 	cok          bool
+	ncook        int
 	out, why     string
 	opened       bool
 	ckKey, ckSc  int
@@ -445,7 +446,7 @@ func (w *world) serverRecv(b []byte, nf int, r *result) {
 		return
 	}
 	// what server_ip.go will issue cookies for
-	r.cok = len(pkt.Cookies)+len(pkt.CookiePlaceholders) == nf
+	r.cok = len(pkt.Cookies)+len(pkt.CookiePlaceholders) <= nf // no field beyond the authenticated ones is counted
 	if err := nts.ProcessRequest(b, sc.C2S, &pkt); err != nil {
 		r.out, r.why = "rejected", "process-request"
 		return
@@ -459,10 +460,12 @@ func (w *world) clientRecv(b []byte, key, reqID []byte, sealed [][]byte, r *resu
 		st := f.VerifData().Cookie
 		r.stored = len(st)
 		if r.out == "accepted" && sealed != nil {
-			r.cok = len(st) == len(sealed)
-			for i := 0; r.cok && i < len(st); i++ {
-				r.cok = bytes.Equal(st[i], sealed[i])
-			}
+			// nothing but authenticated cookies is taken over: every stored cookie is one of the
+			// cookies sealed into the response (each at most as often as it was sealed).  That ALL of
+			// them are stored is not C10's statement - a client that caps its pool, or keeps only
+			// cookies of its current association, stores fewer (a property-preserving change of that
+			// kind was alarmed on while this was an equality).
+			r.cok = subBag(st, sealed)
 		}
 	}()
 	var pkt nts.Packet
@@ -475,6 +478,7 @@ func (w *world) clientRecv(b []byte, key, reqID []byte, sealed [][]byte, r *resu
 		return
 	}
 	r.out, r.why = "accepted", "-"
+	r.ncook = len(pkt.Cookies) // the cookies the authenticated part carried
 }
 
 // Endless loops.  The decoders of the current tree reject an extension field whose Length is below 4; older
@@ -757,7 +761,11 @@ func (d *driver) liveObserve(c tcase, pk int, p *packet, m []byte, off, bit, val
 	if replied {
 		var x result
 		if safely(func() { d.w.clientRecv(bytes.Clone(reply), d.w.sess[tcsc].s2c, p.uid, nil, &x) }) == nil && x.out == "accepted" {
-			liveCok = x.stored == c.Nf
+			// not more cookies than authenticated cookie / placeholder fields (nothing after the
+			// authenticator was counted); that it issues one for EACH of them is C11's statement, and how
+			// many of them the client keeps is the client's business (x.stored is not used here: a client
+			// that only keeps cookies of its current association kept none and was alarmed on)
+			liveCok = x.ncook <= c.Nf
 		}
 	}
 	// The listener does not show which cookie it opened (ck_* unobserved); what its reply is worth is
@@ -774,7 +782,7 @@ func (d *driver) liveObserve(c tcase, pk int, p *packet, m []byte, off, bit, val
 		d.out.Emit(rec{Role: "resp", Nf: c.Nf, Kind: "none", Region: "-", Sub: "-", Pk: pk, Off: -1, Bit: -1, Val: -1,
 			Out: cr.out, Why: "live-reply", Touched: []string{}, Key: true, Dir: true,
 			Uid: len(reply) >= 52+uidLen && bytes.Equal(reply[52:52+uidLen], p.uid),
-			TCkey: 101, TCsc: 1, Stored: cr.stored, Pred: []string{"accepted"}, DD: true, Cok: cr.out != "accepted" || cr.stored == c.Nf})
+			TCkey: 101, TCsc: 1, Stored: cr.stored, Pred: []string{"accepted"}, DD: true, Cok: cr.out != "accepted" || cr.stored <= c.Nf})
 		d.n++
 		d.stats["live-reply"]++
 	}
@@ -1001,4 +1009,22 @@ func senderKind(k string) string {
 		return "replay"
 	}
 	return "none"
+}
+
+// subBag: every element of a occurs in b at least as often as in a
+func subBag(a, b [][]byte) bool {
+	used := make([]bool, len(b))
+	for _, x := range a {
+		ok := false
+		for j, y := range b {
+			if !used[j] && bytes.Equal(x, y) {
+				used[j], ok = true, true
+				break
+			}
+		}
+		if !ok {
+			return false
+		}
+	}
+	return true
 }
